@@ -16,7 +16,10 @@ Record call_obs := mkCall {
   co_of_type : list (list N);      (* per type: ids sorted *)
   co_all : list N                  (* ids sorted *)
 }.
-Record run_obs := mkRunObs { ro_calls : list call_obs; ro_findings : list tagged; ro_status : list status; ro_err : option run_err }.
+(* ro_heap: for every distinct pointer the detectors returned (sorted), the Detectors field of the detector's OWN
+   Finding value after the run *)
+Record run_obs := mkRunObs { ro_calls : list call_obs; ro_findings : list tagged; ro_status : list status; ro_err : option run_err;
+                             ro_heap : list (N * list N) }.
 Record scan_obs := mkScanObs { sc_calls : list call_obs; sc_findings : list tagged; sc_status : list status;
                                sc_failed : bool; sc_pkgs : list N }.
 Record dcase := mkCase { c_fs : list pkg; c_sa : list pkg; c_dets : list detector; c_ctx0 : bool;
@@ -47,6 +50,15 @@ Definition call_eqb (a b : call_obs) : bool :=
   N.eqb (co_det a) (co_det b) && llN_eqb (co_specific a) (co_specific b) && llN_eqb (co_of_type a) (co_of_type b)
   && listN_eqb (co_all a) (co_all b).
 
+Fixpoint dedupN (l : list N) : list N :=   (* l sorted *)
+  match l with
+  | a :: ((b :: _) as l') => if N.eqb a b then dedupN l' else a :: dedupN l'
+  | _ => l
+  end.
+Definition all_ptrs (dets : list detector) : list N := dedupN (sortN (flat_map ptrs dets)).
+Definition heap_eqb (a b : list (N * list N)) : bool :=
+  list_eqb (fun x y => N.eqb (fst x) (fst y) && listN_eqb (snd x) (snd y)) a b.
+
 Definition ext_status : list status := [mkStatus FS_EXT 1 ST_SUCCEEDED; mkStatus SA_EXT 1 ST_SUCCEEDED].
 
 (* ---------------------------------------------------------------- model = observed ? *)
@@ -57,7 +69,8 @@ Definition run_model_ok (c : dcase) : bool :=
   list_eqb call_eqb (map (fun cl => view_of (fst cl) (snd cl)) (rr_calls r)) (ro_calls o)
   && list_eqb tagged_eqb (rr_findings r) (ro_findings o)
   && list_eqb status_eqb (rr_status r) (ro_status o)
-  && opt_err_eqb (rr_err r) (ro_err o).
+  && opt_err_eqb (rr_err r) (ro_err o)
+  && heap_eqb (map (fun p => (p, tag_lookup p (rr_writes r))) (all_ptrs (c_dets c))) (ro_heap o).
 
 Definition scan_model_ok (c : dcase) : bool :=
   match c_scan c with
@@ -89,22 +102,17 @@ Fixpoint calls_spec (dets : list detector) (pkgs : list pkg) (os : list call_obs
   | _, _ => false
   end.
 
-(* [strict]: claim the tagging statement on every input (full strength) instead of on domain D *)
-Definition outcome_spec (strict : bool) (dets : list detector) (findings : list tagged) (sts : list status)
+Definition outcome_spec (dets : list detector) (findings : list tagged) (sts : list status)
     (failed : bool) (ordered : bool) (extra_status : list status) : bool :=
   let cmp_f := if ordered then list_eqb tagged_eqb else perm_eqb tagged_eqb in
   let cmp_s := if ordered then list_eqb status_eqb else perm_eqb status_eqb in
   (* a status entry per detector reflecting whether it failed *)
   cmp_s (extra_status ++ expected_status dets) sts
   && (if advisories_consistent (all_findings dets)
-      then negb failed
-           && (if strict || no_cross_alias dets then cmp_f (expected_findings dets) findings
-               else (* outside D: still the same findings, tags unclaimed *)
-                    (if ordered then list_eqb finding_eqb else perm_eqb finding_eqb)
-                      (map t_finding (expected_findings dets)) (map t_finding findings))
+      then negb failed && cmp_f (expected_findings dets) findings     (* every finding, tagged with its detector *)
       else failed && match findings with [] => true | _ => false end).
 
-Definition case_spec_gen (strict : bool) (c : dcase) : bool :=
+Definition case_spec_ok (c : dcase) : bool :=
   (* the property is claimed for scans whose context is not cancelled; cancelled runs are only
      compared with the model *)
   if c_ctx0 c || negb (no_cancel (c_dets c)) then true
@@ -112,20 +120,22 @@ Definition case_spec_gen (strict : bool) (c : dcase) : bool :=
     let pkgs := c_fs c ++ c_sa c in
     let o := c_run c in
     calls_spec (c_dets c) pkgs (ro_calls o)
-    && outcome_spec strict (c_dets c) (ro_findings o) (ro_status o)
+    && outcome_spec (c_dets c) (ro_findings o) (ro_status o)
          (match ro_err o with Some _ => true | None => false end) true []
+    (* the detectors' own Finding values are not touched *)
+    && forallb (fun e => match snd e with [] => true | _ => false end) (ro_heap o)
     && match c_scan c with
        | None => true
        | Some s =>
            calls_spec (c_dets c) pkgs (sc_calls s)
-           && outcome_spec strict (c_dets c) (sc_findings s) (sc_status s) (sc_failed s) false ext_status
+           && outcome_spec (c_dets c) (sc_findings s) (sc_status s) (sc_failed s) false ext_status
            && listN_eqb (sortN (ids pkgs)) (sc_pkgs s)
        end.
 
-Definition case_spec_ok := case_spec_gen false.       (* oracle, restricted to D = no_cross_alias *)
-Definition case_spec_full := case_spec_gen true.      (* full-strength statement (used for known findings) *)
-Definition in_D (c : dcase) : bool := no_cross_alias (c_dets c).
 Definition claimed (c : dcase) : bool := negb (c_ctx0 c) && no_cancel (c_dets c).
+(* cases in which a *Finding pointer is returned more than once (the formerly defective situation) *)
+Definition has_alias (c : dcase) : bool :=
+  negb (Nat.eqb (length (all_ptrs (c_dets c))) (length (flat_map ptrs (c_dets c)))).
 
 Fixpoint bad_indices {A} (ok : A -> bool) (l : list A) (i : N) : list N :=
   match l with
